@@ -550,8 +550,26 @@ type MemberExpression struct {
 	Computed bool // true for obj[prop], false for obj.prop
 }
 
+// isDecimalIntegerLiteral reports whether e is an integer literal written with decimal
+// digits only: a '.' directly after it would be read as part of the numeral.
+func isDecimalIntegerLiteral(e Expression) bool {
+	il, ok := e.(*IntegerLiteral)
+	if !ok {
+		return false
+	}
+	for i := 0; i < len(il.Token.Literal); i++ {
+		if c := il.Token.Literal[i]; c < '0' || c > '9' {
+			return false
+		}
+	}
+	return true
+}
+
 func (me *MemberExpression) WriteTo(cw *CodeWriter) {
 	me.Object.WriteTo(cw)
+	if !me.Computed && isDecimalIntegerLiteral(me.Object) {
+		cw.WriteRune(' ') // `1 .x`: `1.x` would be the numeral `1.` followed by `x`
+	}
 	cw.WriteLeadingComments(me.Token.LeadingComments)
 	if me.Computed {
 		cw.AddMapping(me.Token.Start)
